@@ -1,7 +1,7 @@
 """Which units decide which property."""
 PROPS = {
     "C05": {
-        "units": ["c05_accumulator"],
+        "units": ["c05_accumulator", "l1_error_api"],
         "assumptions": [
             "std::thread::panicking() is read once and modelled as an uninterpreted boolean",
             "Vec::extend appends exactly what the iterator yields, in order (std contract, assumed as vec_extend)",
